@@ -101,12 +101,15 @@ def sub64 (a b : Nat) : Nat := (a + two64 - b) % two64
 /-- `BackUp(n)`: `off -= n` on uint64 -/
 def backUp (s : Src) (n : Nat) : Src := { s with off := sub64 s.off n }
 
-/-- `n := source.Pos() - start; source.BackUp(n); d, _ = source.NextBytes(n)` -/
-def captured (start : Nat) : P Bytes := fun s =>
-  let n := sub64 s.off start
-  match nextBytes (backUp s n) n with
+/-- `d, _ = source.NextBytes(n)` (eof ignored) -/
+def takeN (n : Nat) : P Bytes := fun s =>
+  match nextBytes s n with
   | none => .panic
   | some ((d, _), s') => .ok d s'
+
+/-- `n := source.Pos() - start; source.BackUp(n); d, _ = source.NextBytes(n)` -/
+def captured (start : Nat) : P Bytes := fun s =>
+  takeN (sub64 s.off start) (backUp s (sub64 s.off start))
 
 def repeatP {α : Type} : Nat → P α → P (List α)
   | 0, _ => pure []
@@ -281,6 +284,9 @@ def deserialize (R : Rlp) : P Tx := fun s =>
 /-- `TransactionFromRawBytes` -/
 def fromRawBytes (R : Rlp) (raw : Bytes) : Res Tx :=
   if raw.length > MAX_TX_SIZE then .err .invalid else deserialize R ⟨raw, 0⟩
+
+/-- the bytes a decoder run consumed: from the start cursor `s` to the end cursor `s'` of the same buffer -/
+def consumed (s s' : Src) : Bytes := (s.bs.drop s.off).take (s'.off - s.off)
 
 /-! ## Encoding side (`MutableTransaction.serialize`, payload `Serialization`) -/
 
